@@ -1,6 +1,6 @@
 (** C07 - Allocation chains resolve to exactly the linked sectors, and always terminate.
     Property theorems only. *)
-From SE Require Import Base Fat FatProofs.
+From SE Require Import Base Fat FatProofs AkaiChainProofs.
 
 (** Resolution through a link table: a chain present in the table (every sector in range,
     followed through its links to an end marker) that fits in the table is returned
@@ -43,18 +43,63 @@ Theorem roland_get_file_total :
   forall N links index off, 0 <= N -> roland_get_file N links index off <> OutOfFuel.
 Proof. exact roland_get_file_total_lemma. Qed.
 
-(** Chain resolution through the DECODED AKAI table.  Bounded theorem (the bound is in the
-    statement): for every raw table of n <= 4 words over {free, EOF, reserved x2, every
-    in-range link, one out-of-range} and every start, a raw chain whose sectors are each
-    linked exactly once resolves to exactly itself - whatever the order of its sectors (after
-    the D4 fix the head need not be the lowest sector) and whatever else the table holds.
-    The unbounded statement is [akai_decode_chain_statement]; not proved (DESIGN.md, C07). *)
+(** Chain resolution through the DECODED AKAI table, UNBOUNDED: for every raw table (any
+    length up to 0xC000 words, any contents) and every start, a raw chain (every sector in
+    range, not repeated, word neither free nor a reserved flag, ending at an EOF word) whose
+    sectors are each linked exactly once (the head from no table word) resolves to exactly
+    itself - whatever the order of its sectors (after the D4 fix the head need not be the
+    lowest sector) and whatever else the table holds.
+    The hypothesis [zlen block <= 49152] (weaker than the <= 16384 that keeps all three flag
+    words out of range; the real table has 11386 entries) is NEEDED: in a larger table the EOF
+    word 0xC000 is itself an in-range link, see [akai_decode_chain_statement_refuted]. *)
+Theorem akai_decode_chain :
+  forall block s c,
+    Forall (fun w => 0 <= w < 65536) block ->
+    zlen block <= 49152 ->
+    raw_chain (S (length block)) block [] s = Some c ->
+    linked_once block c = true ->
+    akai_get_segment block s = Ok c.
+Proof. exact akai_decode_chain_lemma. Qed.
+Print Assumptions akai_decode_chain.
+
+(** The statement without the size bound ([FatProofs.akai_decode_chain_statement]) is false of
+    the model (and of the code): witness = 49152 free words followed by two EOF words, start
+    49153: the decoder joins sector 49153 to the already decoded sector 49152 = 0xC000. *)
+Theorem akai_decode_chain_statement_refuted : ~ akai_decode_chain_statement.
+Proof. exact akai_decode_chain_statement_refuted_lemma. Qed.
+Print Assumptions akai_decode_chain_statement_refuted.
+
+(** Directory areas, UNBOUNDED: from the first sector of every maximal run of reserved-flag
+    words (preceded by a non-reserved word or the table start) resolution yields exactly the
+    run, including a run that ends with the table (D11 fix) - for every table of at most
+    0x4000 words (so that the reserved flags are never in-range links), whatever else it holds
+    (other chains may link into the middle of the run). *)
+Theorem akai_decode_dir_run :
+  forall block s,
+    Forall (fun w => 0 <= w < 65536) block ->
+    zlen block <= 16384 ->
+    0 <= s < zlen block ->
+    is_dir_word (znth 0 block s) = true ->
+    (s = 0 \/ is_dir_word (znth 0 block (s - 1)) = false) ->
+    akai_get_segment block s = Ok (run_from (length block) block s).
+Proof. exact akai_decode_dir_run_lemma. Qed.
+Print Assumptions akai_decode_dir_run.
+
+(** ... and that bound is needed too: 16385 free words followed by one reserved flag. *)
+Theorem akai_dir_run_bound_needed :
+  exists block s,
+    Forall (fun w => 0 <= w < 65536) block /\ 0 <= s < zlen block /\
+    is_dir_word (znth 0 block s) = true /\
+    (s = 0 \/ is_dir_word (znth 0 block (s - 1)) = false) /\
+    akai_get_segment block s <> Ok (run_from (length block) block s).
+Proof. exact akai_dir_run_bound_needed_lemma. Qed.
+Print Assumptions akai_dir_run_bound_needed.
+
+(** The earlier bounded theorems (kept): complete enumeration of every raw table of n <= 4
+    words over {free, EOF, reserved x2, every in-range link, one out-of-range} and every start. *)
 Theorem akai_decode_chain_upto_4_partial : all_ok 1 && all_ok 2 && all_ok 3 && all_ok 4 = true.
 Proof. exact akai_chain_small_scope_all. Qed.
 Print Assumptions akai_decode_chain_upto_4_partial.
-
-(** Directory areas, same bound: from the first sector of every maximal run of reserved-flag
-    words resolution yields exactly the run, including a run that ends with the table (D11 fix). *)
 Theorem akai_dir_run_upto_4_partial : all_runs_ok 1 && all_runs_ok 2 && all_runs_ok 3 && all_runs_ok 4 = true.
 Proof. exact akai_run_small_scope_all. Qed.
 Print Assumptions akai_dir_run_upto_4_partial.
@@ -81,3 +126,12 @@ Example c07_example_akai :
   akai_get_segment [SAT_RES_STD; SAT_RES_STD; 6; 9; SAT_EOF; 2; 4; 1] 2 = Ok [2; 6; 4]
   /\ akai_get_segment [SAT_RES_STD; SAT_RES_STD; 6; 9; SAT_EOF; 2; 4; 1] 0 = Ok [0; 1].
 Proof. vm_compute. split; reflexivity. Qed.
+
+(** Non-vacuity of the hypotheses of [akai_decode_chain] / [akai_decode_dir_run]. *)
+Example c07_example_chain_hyps :
+  let block := [SAT_RES_STD; SAT_RES_STD; 6; 9; SAT_EOF; 2; 4; 1] in
+  raw_chain (S (length block)) block [] 5 = Some [5; 2; 6; 4]
+  /\ linked_once block [5; 2; 6; 4] = true
+  /\ is_dir_word (znth 0 block 0) = true
+  /\ run_from (length block) block 0 = [0; 1].
+Proof. vm_compute. repeat split; reflexivity. Qed.
